@@ -34,9 +34,12 @@ func (d *Data) storeTags(batcher storage.KeyValueBatcher, ctx *datastore.Version
 	return nil
 }
 
+// storeLabels rebuilds label lists from block elements during a reload.  The elements
+// themselves did not change, so like the in-memory reload it does not announce them
+// as added to subscribers (a synced labelsz would count every element again).
 func (d *Data) storeLabels(batcher storage.KeyValueBatcher, ctx *datastore.VersionedCtx, blockE Elements) error {
 	batch := batcher.NewBatch(ctx)
-	if err := d.storeLabelElements(ctx, batch, blockE); err != nil {
+	if err := d.storeLabelElements(ctx, batch, blockE, false); err != nil {
 		return err
 	}
 	if err := batch.Commit(); err != nil {
